@@ -163,3 +163,4 @@ fn term_trip_char__complete() {
     match &rc { Ok(x) => assert!(*x == c), Err(_) => assert!(false) }
     std::mem::forget(rc); std::mem::forget(tc);
 }
+
